@@ -10,14 +10,17 @@
 #include <hgraph/types/metadata/debug_descriptor.h>
 #include <hgraph/types/metadata/type_record_registry.h>
 #include <hgraph/types/time_series/ts_output.h>
+#include <hgraph/types/utils/counted_mutex.h>
 #include <hgraph/util/scope.h>
 
 #include <algorithm>
+#include <atomic>
 #include <chrono>
 #include <cstdint>
 #include <deque>
 #include <limits>
 #include <memory>
+#include <mutex>
 #include <optional>
 #include <stdexcept>
 #include <type_traits>
@@ -2186,8 +2189,22 @@ GraphBuilder &GraphBuilder::type_realization(
   return *this;
 }
 
+namespace {
+// A builder is a reusable recipe: executors may be made from one builder, or
+// from different builders, on several threads at once. The lazily compiled
+// parts of a builder (its realization snapshot, its runtime types) and the
+// process-wide runtime type registry behind them are build-time state, so
+// they are serialised here; the per-tick path (a nested graph made from an
+// already compiled builder) only reads the published flag.
+TypeSystemRecursiveMutex &graph_builder_compile_mutex() noexcept {
+  static TypeSystemRecursiveMutex mutex;
+  return mutex;
+}
+} // namespace
+
 std::shared_ptr<const TypeRealizationSnapshot>
 GraphBuilder::type_realization() const {
+  std::lock_guard lock{graph_builder_compile_mutex()};
   if (!type_realization_) {
     type_realization_ = TypeRealizationSnapshot::capture(
         TypeRegistry::instance(),
@@ -2227,11 +2244,15 @@ MemoryUtils::StorageLayout GraphBuilder::nested_storage_layout() const {
 }
 
 GraphTypeRef GraphBuilder::root_type() const {
-  if (!types_compiled_) {
-    const auto types = graph_runtime_registry().make_types(*this);
-    root_type_ = types.root;
-    nested_type_ = types.nested;
-    types_compiled_ = true;
+  if (!std::atomic_ref<bool>{types_compiled_}.load(std::memory_order_acquire)) {
+    std::lock_guard lock{graph_builder_compile_mutex()};
+    if (!types_compiled_) {
+      const auto types = graph_runtime_registry().make_types(*this);
+      root_type_ = types.root;
+      nested_type_ = types.nested;
+      std::atomic_ref<bool>{types_compiled_}.store(true,
+                                                   std::memory_order_release);
+    }
   }
   return root_type_;
 }
